@@ -604,7 +604,7 @@ def run_property(ctx: Ctx, prop: str) -> int:
             raise MachineryError("vacuous action in Site.tla: %s" % rc.coverage)
 
     # ---- spec -> code: realise a stratified sample of the models
-    budget = 160 if ctx.quick else 1500
+    budget = 120 if ctx.quick else 1500
     chosen: List[int] = []
     per = 2 if ctx.quick else 6
     for sg, idxs in sorted(sigs.items(), key=lambda kv: (len(kv[1]), kv[0])):
@@ -636,7 +636,7 @@ def run_property(ctx: Ctx, prop: str) -> int:
             extras.append(j)
     res = run_jobs(jobs + extras + pass1, workers)
     pass2 = []
-    nvar = 3 if ctx.quick else 6
+    nvar = 2 if ctx.quick else 6
     for rj in res[len(jobs) + len(extras):]:
         if "error" in rj or "objs" not in rj:
             continue
